@@ -93,7 +93,7 @@ Print Assumptions C10_source_parking_function_count.
    it is the out-degree of v with respect to S in terms of which legality is defined (Defs.outdeg, C10_legal), and it raises exactly for an unknown v,
    for q, and for v outside S *)
 Theorem C10_source_get_out_degree_S : forall g gg vs q v S, wfb g = true -> rep_graph gg g -> rep_vset (nv g) vs ->
-  CFConfig_get_out_degree_S vs q gg v S = (if Nat.ltb v (nv g) && negb (Nat.eqb v q) && mem v S then Some (out_degree_S g v S) else None) /\
+  CFConfig_get_out_degree_S vs q gg v S = (if Nat.ltb v (nv g) && negb (Nat.eqb v q) && mem v S then PyOk (out_degree_S g v S) else PyExn tt) /\
   out_degree_S g v S = outdeg (Vg g) (mult g) (fun w => mem w S) v.
 Proof. intros. split; [apply get_out_degree_S_refines; assumption|reflexivity]. Qed.
 Print Assumptions C10_source_get_out_degree_S.
